@@ -214,9 +214,10 @@ def make_spec(kind: str, stack: str, shared: Dict[str, Any], status_map: bool = 
     tags = [openapi.Tag(name='t1', description='first')]
     servers = [openapi.Server(url='http://localhost')]
     shared['info'], shared['spec_tags'], shared['spec_servers'] = info, tags, servers
+    ex_kw = {'schema_extractor': exs[0]} if (len(exs) == 1 and shared.get('singular_extractor_kw')) else {'schema_extractors': exs}
     return openapi.OpenAPI(
         info=info, tags=tags, servers=servers, openapi='3.1.0' if kind == 'oas31' else '3.0.3',
         security_schemes={'basicAuth': openapi.SecurityScheme(type=openapi.SecuritySchemeType.HTTP, scheme='basic')},
-        schema_extractors=exs,
         error_http_status_map={72001: 409, 72003: 404} if status_map else {},
+        **ex_kw,
     )
